@@ -189,3 +189,15 @@ class BoundedRead:
                             self.sites.append((n, False, "escape"))
                             bad.append((n, f"the whole pre-allocated buffer `{a.id}` is handed to `{name}()`, which is not known to read only the received part"))
         return bad
+
+
+def through_local(fn: FunctionInfo, expr: ast.AST | None) -> ast.AST | None:
+    """`x` -> the single value bound to local `x` (so that `v = f(); return v` is read like `return f()`)"""
+    seen = 0
+    while isinstance(expr, ast.Name) and seen < 4:
+        vals = assignments(fn).get(expr.id, [])
+        if len(vals) != 1:
+            break
+        expr = vals[0]
+        seen += 1
+    return expr
